@@ -1,4 +1,5 @@
 PROP = dict(
+        tie_coq=["Properties/TieC03.v"],
         coq='Properties/C03.v',
         workloads=[
             dict(name="vault-random", go_test="TestC01", runner='C03',
